@@ -25,7 +25,11 @@ impl FromStr for SpacedRune {
       match c {
         'A'..='Z' => rune.push(c),
         '.' | '•' => {
-          let flag = 1 << rune.len().checked_sub(1).ok_or(Error::LeadingSpacer)?;
+          let shift = rune.len().checked_sub(1).ok_or(Error::LeadingSpacer)?;
+          let flag = u32::try_from(shift)
+            .ok()
+            .and_then(|shift| 1u32.checked_shl(shift))
+            .ok_or(Error::Rune(rune::Error::Range))?;
           if spacers & flag != 0 {
             return Err(Error::DoubleSpacer);
           }
@@ -35,7 +39,7 @@ impl FromStr for SpacedRune {
       }
     }
 
-    if 32 - spacers.leading_zeros() >= rune.len().try_into().unwrap() {
+    if 32 - spacers.leading_zeros() >= rune.len().try_into().unwrap_or(u32::MAX) {
       return Err(Error::TrailingSpacer);
     }
 
